@@ -2,7 +2,7 @@
    Claims are restated in Properties/C07.v. *)
 From Coq Require Import Floats.
 From GenqlV Require Import Base.Prelude Base.Fmt Base.Value Model.Ast Model.Like Model.Num Model.Eval Model.Exec.
-From GenqlV Require Import Spec.StageSpec Proofs.C07Mono Proofs.C07Blind.
+From GenqlV Require Import Spec.StageSpec Proofs.C07Mono Proofs.C07Blind Proofs.C07Up.
 From Coq Require Import ZifyBool ZifyNat Permutation.
 Local Open Scope list_scope.
 
@@ -11,7 +11,14 @@ Local Open Scope list_scope.
 (* ================================================================== *)
 
 Definition mkctx (d : row) (ctes : list (string * stmt)) (busy : list string) : qctx :=
-  {| c_data := d; c_ctes := ctes; c_busy := busy |}.
+  {| c_data := d; c_ctes := ctes; c_busy := busy; c_up := [] |}.
+
+(* a query that is not a subquery: nothing is behind `<-` but what its document holds *)
+Lemma up_read_top ctx p : c_up ctx = [] -> up_read ctx p = None.
+Proof.
+  intros H. unfold up_read. rewrite H. destruct p as [|k rest]; [reflexivity|].
+  destruct (String.eqb k "<-"); reflexivity.
+Qed.
 
 Lemma same_pipeline_refl s : same_pipeline s s.
 Proof. repeat split. Qed.
@@ -48,13 +55,6 @@ Proof.
   destruct (String.eqb c k) eqn:He.
   - apply String.eqb_eq in He. exfalso. auto.
   - apply IH. intros Hin. auto.
-Qed.
-
-Lemma cte_lookup_some k ctes body : cte_lookup k ctes = Some body -> In (k, body) ctes.
-Proof.
-  unfold cte_lookup. destruct (find _ ctes) as [[c b]|] eqn:Hf; [|discriminate].
-  intros H. inversion H; subst. apply find_some in Hf. destruct Hf as [Hin He].
-  cbn [fst] in He. apply String.eqb_eq in He. subst. exact Hin.
 Qed.
 
 Lemma cte_lookup_nodup k body ctes :
@@ -115,7 +115,7 @@ Section Main.
     build_from rec join (mkctx d ctes busy) (FTable (k :: rest) alias) =
     let! v := reader rest (VArr rows) in let! arr := as_array v in Ok (Some (process_alias arr alias)).
   Proof.
-    intros Hl Hb Hr. cbn [build_from mkctx c_ctes c_busy c_data]. rewrite Hl.
+    intros Hl Hb Hr. cbn [build_from mkctx c_ctes c_busy c_data c_up]. rewrite Hl.
     unfold mem_str in Hb. rewrite Hb. unfold mkctx in Hr. rewrite Hr. reflexivity.
   Qed.
 
@@ -125,7 +125,8 @@ Section Main.
     build_from rec join (plain d) (FTable (k :: rest) alias) =
     let! v := reader rest (VArr rows) in let! arr := as_array v in Ok (Some (process_alias arr alias)).
   Proof.
-    intros Hk. cbn [build_from plain c_ctes c_data cte_lookup find reader]. rewrite Hk.
+    intros Hk. cbn [build_from plain c_ctes c_data cte_lookup find].
+    rewrite (up_read_top (plain d)) by reflexivity. cbn [plain c_data reader]. rewrite Hk.
     destruct (reader rest (VArr rows)) as [v| | |] eqn:Hv; cbn [bind]; try reflexivity.
     apply reader_arr in Hv. destruct Hv as (l' & ->). reflexivity.
   Qed.
@@ -137,7 +138,10 @@ Section Main.
     build_from rec' join (plain d') (FTable (k :: rest) alias).
   Proof.
     intros Hl Hk. cbn [build_from mkctx plain c_ctes c_data]. rewrite Hl.
-    cbn [cte_lookup find reader]. rewrite Hk. reflexivity.
+    cbn [cte_lookup find].
+    rewrite (up_read_top {| c_data := d; c_ctes := ctes; c_busy := busy; c_up := [] |}) by reflexivity.
+    rewrite (up_read_top {| c_data := d'; c_ctes := []; c_busy := []; c_up := [] |}) by reflexivity.
+    cbn [c_data reader]. rewrite Hk. reflexivity.
   Qed.
 
   (* one stage reading a CTE, against the same stage reading the materialised value *)
@@ -168,8 +172,13 @@ Section Main.
       apply bind_ok7 in H. destruct H as (rs & _ & H).
       apply bind_ok7 in H. destruct H as (v & _ & H).
       apply bind_ok7 in H. destruct H as (arr & _ & H). discriminate.
-    - intros H. apply bind_ok7 in H. destruct H as (v & _ & H).
-      destruct v; try discriminate; apply bind_ok7 in H; destruct H as (arr & _ & H); discriminate.
+    - destruct (up_read ctx (k :: rest)) as [h|].
+      + destruct (existsb (String.eqb (uh_name h)) (fr_busy (uh_frame h))); [discriminate|]. intros H.
+        apply bind_ok7 in H. destruct H as (rs & _ & H).
+        apply bind_ok7 in H. destruct H as (v & _ & H).
+        apply bind_ok7 in H. destruct H as (arr & _ & H). discriminate.
+      + intros H. apply bind_ok7 in H. destruct H as (v & _ & H).
+        destruct v; try discriminate; apply bind_ok7 in H; destruct H as (arr & _ & H); discriminate.
   Qed.
 
   Lemma stage_step_doc m d d' ctes busy s k rest alias :
@@ -213,39 +222,24 @@ Section Main.
   (* 3. statements that cannot see the registered CTEs                 *)
   (* ================================================================ *)
 
+  Lemma mem_str_fst_none ctes k : mem_str k (map fst ctes) = false -> cte_lookup k ctes = None.
+  Proof. intros H. apply cte_lookup_none. apply mem_str_not_In. exact H. Qed.
+
   Lemma from_avoids_invisible rec d ctes busy f :
     from_avoids (map fst ctes) f = true ->
     build_from rec join (mkctx d ctes busy) f = build_from rec join (plain d) f.
   Proof.
-    induction f as [|path alias|fn path alias|q alias|jt st l IHl r IHr on]; cbn [from_avoids]; intros H.
-    - reflexivity.
-    - destruct path as [|k rest]; [reflexivity|].
-      apply Bool.negb_true_iff in H. apply mem_str_not_In in H.
-      apply from_doc; [apply cte_lookup_none; exact H | reflexivity].
-    - reflexivity.
-    - discriminate.
-    - apply Bool.andb_true_iff in H. destruct H as [H1 H2].
-      cbn [build_from]. rewrite (IHl H1), (IHr H2). reflexivity.
+    apply (from_avoids_invisible_up join (map fst ctes) d ctes busy (mem_str_fst_none ctes) rec []).
   Qed.
 
+  (* [avoids] now also asks that the row-scoped subqueries of the statement do not reach one of the
+     names through `<-` (StageSpec.hides): they would read the thunk of the enclosing query *)
   Theorem avoids_invisible q : forall n d ctes busy,
     avoids (map fst ctes) q = true ->
     ex n (mkctx d ctes busy) (JStmt q) = ex n (plain d) (JStmt q).
   Proof.
-    induction q as [s|all l IHl r IHr limit offset]; intros n d ctes busy H;
-      (destruct n as [|n]; [reflexivity|]).
-    - cbn [avoids] in H. destruct (s_with s) eqn:Hw; [|discriminate].
-      rewrite !exec_select_unfold, Hw.
-      change (register_ctes (plain d) []) with (plain d). rewrite register_nil. cbn zeta.
-      rewrite (from_avoids_invisible (ex n) d ctes busy (s_from s) H).
-      destruct (build_from (ex n) join (plain d) (s_from s)); cbn [bind]; try reflexivity.
-      apply run_select_ctx. reflexivity.
-    - cbn [avoids] in H. apply Bool.andb_true_iff in H. destruct H as [H1 H2].
-      cbn [exec exec_step]. rewrite (IHl n d ctes busy H1), (IHr n d ctes busy H2).
-      repeat match goal with
-             | |- bind ?x _ = bind ?x _ => destruct x; cbn [bind]; try reflexivity
-             end.
-      apply run_select_ctx. reflexivity.
+    intros n d ctes busy H.
+    apply (avoids_invisible_up call join (map fst ctes) d ctes busy (mem_str_fst_none ctes) q n [] H).
   Qed.
 
   (* ================================================================ *)
@@ -258,7 +252,7 @@ Section Main.
     let! rs := rec (mkctx d ctes (k :: busy)) (JStmt body) in
     let! v := reader rest rs in let! arr := as_array v in Ok (Some (process_alias arr alias)).
   Proof.
-    intros Hl Hb. cbn [build_from mkctx c_ctes c_busy c_data]. rewrite Hl.
+    intros Hl Hb. cbn [build_from mkctx c_ctes c_busy c_data c_up]. rewrite Hl.
     unfold mem_str in Hb. rewrite Hb. reflexivity.
   Qed.
 
@@ -482,7 +476,7 @@ Section Main.
   Proof.
     destruct n as [|n]; [reflexivity|]. rewrite !exec_select_unfold.
     cbn [clear_with set_with s_with s_from]. rewrite register_nil.
-    unfold register_ctes, plain, mkctx. cbn [c_data c_ctes c_busy]. rewrite app_nil_r. reflexivity.
+    unfold register_ctes, plain, mkctx. cbn [c_data c_ctes c_busy c_up]. rewrite app_nil_r. reflexivity.
   Qed.
 
   (* WITH c1 AS q1, ..., cn AS qn  outer : every body and the outer query are stages of the grammar,
@@ -553,7 +547,7 @@ Section Main.
     intros Hnd Hp. destruct n as [|n]; [reflexivity|]. rewrite !exec_select_unfold.
     cbn [set_with s_with s_from]. cbn zeta.
     assert (Heq : ctx_equiv (register_ctes ctx (s_with s)) (register_ctes ctx w')).
-    { split; cbn [register_ctes c_data c_ctes c_busy]; try reflexivity.
+    { split; cbn [register_ctes c_data c_ctes c_busy c_up]; try reflexivity; [|apply up_equiv_refl].
       intros k. rewrite !cte_lookup_app.
       rewrite (cte_lookup_perm (rev (s_with s)) (rev w') k); [reflexivity| |].
       - rewrite map_rev. apply NoDup_rev. exact Hnd.
@@ -562,7 +556,7 @@ Section Main.
     rewrite (build_from_ctx_equiv n _ _ (s_from s) Heq).
     destruct (build_from (ex n) join (register_ctes ctx w') (s_from s)); cbn [bind]; try reflexivity.
     transitivity (run_select (ex n) call join (register_ctes ctx w') s a);
-      [apply run_select_ctx; reflexivity|reflexivity].
+      [apply run_select_ctx; exact Heq|reflexivity].
   Qed.
 
   (* the chain theorem for any declaration order: it suffices that SOME ordering of the WITH list
@@ -704,18 +698,31 @@ Section Main.
 
   (* a select-list subquery contributes what the subquery returns when run standalone on the scope
      copy of the current row (the row's columns, plus `<-` bound to the enclosing document) *)
-  Theorem subquery_standalone n ctx s filtered cur q :
+  (* in general the subquery also sees, behind `<-`, the thunks of the enclosing queries *)
+  Theorem subquery_scoped n ctx s filtered cur q :
     eval (mk_env (ex n) call join ctx s filtered) cur (ESub q) =
-    let! v := ex n (plain (scope cur (VObj (c_data ctx)))) (JStmt q) in Ok (RVal v).
+    let! v := ex n (sub_ctx ctx (scope cur (VObj (c_data ctx)))) (JStmt q) in Ok (RVal v).
   Proof. reflexivity. Qed.
 
+  (* [no_thunks ctx] (new hypothesis): the enclosing query registered no CTE and neither did the
+     queries around it; otherwise the subquery is NOT a standalone run on the row — `<-`.c reads the
+     CTE c (see section 8b) *)
+  Theorem subquery_standalone n ctx s filtered cur q :
+    no_thunks ctx ->
+    eval (mk_env (ex n) call join ctx s filtered) cur (ESub q) =
+    let! v := ex n (plain (scope cur (VObj (c_data ctx)))) (JStmt q) in Ok (RVal v).
+  Proof.
+    intros H. rewrite subquery_scoped, (exec_sub_plain call join n ctx _ _ H). reflexivity.
+  Qed.
+
   Theorem subquery_standalone_evals ctx s filtered cur q r :
+    no_thunks ctx ->
     evals (plain (scope cur (VObj (c_data ctx)))) (JStmt q) r ->
     exists N, forall n, N <= n ->
       eval (mk_env (ex n) call join ctx s filtered) cur (ESub q) = (let! v := r in Ok (RVal v)).
   Proof.
-    intros H. destruct (evals_from _ _ _ H) as (N & HN). exists N. intros n Hn.
-    rewrite subquery_standalone, (HN n Hn). reflexivity.
+    intros Hno H. destruct (evals_from _ _ _ H) as (N & HN). exists N. intros n Hn.
+    rewrite (subquery_standalone n ctx s filtered cur q Hno), (HN n Hn). reflexivity.
   Qed.
 
   (* what the subquery's data is: the current row's columns ... *)
@@ -731,6 +738,7 @@ Section Main.
     build_from rec join (plain d) (FTable (k :: rest) alias).
   Proof.
     cbn [build_from plain c_ctes c_data cte_lookup find].
+    rewrite !(up_read_top (plain _)) by reflexivity. cbn [plain c_data].
     change (reader ("<-"%string :: k :: rest) (VObj (scope cur (VObj d))))
       with (reader (k :: rest) (obj_get "<-" (scope cur (VObj d)))).
     rewrite scope_back. reflexivity.
@@ -742,7 +750,8 @@ Section Main.
     build_from rec join (plain (scope cur data)) (FTable (k :: rest) alias) =
     build_from rec join (plain cur) (FTable (k :: rest) alias).
   Proof.
-    intros Hk. cbn [build_from plain c_ctes c_data cte_lookup find reader].
+    intros Hk. cbn [build_from plain c_ctes c_data cte_lookup find].
+    rewrite !(up_read_top (plain _)) by reflexivity. cbn [plain c_data reader].
     rewrite (scope_column cur data k Hk). reflexivity.
   Qed.
 
@@ -770,6 +779,7 @@ Section Main.
   (* x [NOT] IN (subquery): membership of x among the single columns of what the subquery returns
      when run standalone on the scope copy of the current row *)
   Theorem in_subquery n ctx s filtered cur neg a q l lv rs cols :
+    no_thunks ctx ->
     eval (mk_env (ex n) call join ctx s filtered) (scope cur (VObj (c_data ctx))) a = Ok l ->
     value_of (scope cur (VObj (c_data ctx))) l = Ok lv ->
     ex n (plain (scope cur (VObj (c_data ctx)))) (JStmt q) = Ok (VArr rs) ->
@@ -778,12 +788,12 @@ Section Main.
     eval (mk_env (ex n) call join ctx s filtered) cur (EInSub neg a q) =
     Ok (RVal (VBool (xorb neg (member_sem lv cols)))).
   Proof.
-    intros Ha Hv Hq Hcols Hcmp. cbn [eval].
+    intros Hno Ha Hv Hq Hcols Hcmp. cbn [eval].
     change (e_data (mk_env (ex n) call join ctx s filtered)) with (VObj (c_data ctx)).
     rewrite Ha. cbn [bind]. rewrite Hv. cbn [bind].
     change (e_sub (mk_env (ex n) call join ctx s filtered) q (scope cur (VObj (c_data ctx))))
-      with (ex n (plain (scope cur (VObj (c_data ctx)))) (JStmt q)).
-    rewrite Hq. cbn [bind]. rewrite (in_list_member lv rs cols Hcols Hcmp). reflexivity.
+      with (ex n (sub_ctx ctx (scope cur (VObj (c_data ctx)))) (JStmt q)).
+    rewrite (exec_sub_plain call join n ctx _ _ Hno), Hq. cbn [bind]. rewrite (in_list_member lv rs cols Hcols Hcmp). reflexivity.
   Qed.
 
   (* ---------- EXISTS ---------- *)
@@ -881,6 +891,7 @@ Section Main.
 
   (* what e_exists computes, before the select list is looked at *)
   Lemma exists_unfold n ctx s filtered cur s' k rest elems :
+    no_thunks ctx ->
     s_from s' = FTable (k :: rest) "" ->
     reader (k :: rest) (VObj cur) = Ok (VArr elems) ->
     e_exists (mk_env (ex (S n)) call join ctx s filtered) (SSelect s') cur =
@@ -888,22 +899,27 @@ Section Main.
     let! out := ex (S n) (plain cur) (JRows s' (map VObj ms)) in
     match out with VArr l => Ok (negb (Nat.eqb (List.length l) 0)) | _ => Err end.
   Proof.
-    intros Hf Hread. cbn [mk_env e_exists]. rewrite Hf.
-    change (sub_ctx cur) with (plain cur).
-    cbn [build_from plain c_ctes c_data cte_lookup find]. rewrite Hread. cbn [bind as_array].
+    intros Hno Hf Hread. cbn [mk_env e_exists]. rewrite Hf.
+    rewrite (build_from_sub_plain call join (S n) ctx cur _ Hno).
+    cbn [build_from plain c_ctes c_data cte_lookup find].
+    rewrite (up_read_top (plain cur)) by reflexivity. cbn [plain c_data].
+    rewrite Hread. cbn [bind as_array].
     unfold process_alias. cbn [String.eqb]. rewrite merge_mapM.
-    match goal with |- context [mapM ?f elems] => destruct (mapM f elems) as [ms| | |] end; cbn [bind]; reflexivity.
+    match goal with |- context [mapM ?f elems] => destruct (mapM f elems) as [ms| | |] end;
+      cbn [bind]; try reflexivity.
+    rewrite (exec_sub_plain call join (S n) ctx cur _ Hno). reflexivity.
   Qed.
 
   (* EXISTS (SELECT * FROM nested WHERE p) on the (scoped) outer row [cur]: element-wise reading *)
   Theorem exists_star n ctx s filtered cur s' k rest elems :
+    no_thunks ctx ->
     exists_shape s' -> s_items s' = [IStar] -> s_from s' = FTable (k :: rest) "" ->
     reader (k :: rest) (VObj cur) = Ok (VArr elems) ->
     e_exists (mk_env (ex (S n)) call join ctx s filtered) (SSelect s') cur =
     exists_sem (fun r => eval_cond (mk_env (ex n) call join (plain cur) s' []) r (s_where s')) cur elems.
   Proof.
-    intros Hshape Hitems Hf Hread.
-    rewrite (exists_unfold n ctx s filtered cur s' k rest elems Hf Hread). unfold exists_sem.
+    intros Hno Hshape Hitems Hf Hread.
+    rewrite (exists_unfold n ctx s filtered cur s' k rest elems Hno Hf Hread). unfold exists_sem.
     match goal with |- context [mapM ?f elems] => destruct (mapM f elems) as [ms| | |] end; cbn [bind]; try reflexivity.
     rewrite (exists_run n (plain cur) s' ms Hshape).
     match goal with |- context [mapM ?f ms] => destruct (mapM f ms) as [bs| | |] eqn:Hbs end; cbn [bind catch_panic]; try reflexivity.
@@ -915,14 +931,15 @@ Section Main.
   (* any select list that is not aggregate-only: whenever EXISTS has a value, it is the
      element-wise one (the select list can only add failures, e.g. a projection error) *)
   Theorem exists_sound n ctx s filtered cur s' k rest elems b :
+    no_thunks ctx ->
     exists_shape s' -> s_from s' = FTable (k :: rest) "" ->
     reader (k :: rest) (VObj cur) = Ok (VArr elems) ->
     e_exists (mk_env (ex (S n)) call join ctx s filtered) (SSelect s') cur = Ok b ->
     exists_sem (fun r => eval_cond (mk_env (ex n) call join (plain cur) s' []) r (s_where s')) cur elems
       = Ok b.
   Proof.
-    intros Hshape Hf Hread.
-    rewrite (exists_unfold n ctx s filtered cur s' k rest elems Hf Hread). unfold exists_sem.
+    intros Hno Hshape Hf Hread.
+    rewrite (exists_unfold n ctx s filtered cur s' k rest elems Hno Hf Hread). unfold exists_sem.
     match goal with |- context [mapM ?f elems] => destruct (mapM f elems) as [ms| | |] end; cbn [bind]; try discriminate.
     rewrite (exists_run n (plain cur) s' ms Hshape).
     match goal with |- context [mapM ?f ms] => destruct (mapM f ms) as [bs| | |] eqn:Hbs end; cbn [bind catch_panic]; try discriminate.
@@ -1015,7 +1032,10 @@ Section Main.
   (* standalone, a table is read without consulting the interpreter *)
   Lemma from_plain_table rec rec' d p alias :
     build_from rec join (plain d) (FTable p alias) = build_from rec' join (plain d) (FTable p alias).
-  Proof. destruct p; reflexivity. Qed.
+  Proof.
+    destruct p as [|k rest]; [reflexivity|]. cbn [build_from plain c_ctes cte_lookup find].
+    rewrite (up_read_top (plain d)) by reflexivity. reflexivity.
+  Qed.
 
   (* a stage over a document table: the source rows need no fuel; two units above their nesting
      depth are enough, more fuel changes nothing *)
